@@ -159,6 +159,44 @@ theorem defsAgree_eq {P : Prog} {n : String} (h : defsAgree P n = true) {q q' : 
   have := List.all_eq_true.1 (List.all_eq_true.1 h q hq) q' hq'
   simpa [hn, hn'] using this
 
+/-- decidable, computed from the two independent definitions: some offered parameter called `n` carries another
+    annotation or default than the definition that binds `n` at run time -/
+def typeDefaultDiffers (P : Prog) (c : CId) (n : String) : Bool :=
+  match binder P c n with
+  | none => false
+  | some q => (resolve P c).any (fun p => p.name == n && !(decide (q.ty = p.ty) && decide (q.dflt = p.dflt)))
+
+theorem typeDefaultDiffers_false {P : Prog} {c : CId} {n : String} :
+    typeDefaultDiffers P c n = false ↔
+      ∀ p ∈ resolve P c, p.name = n → ∀ q, binder P c n = some q → q.ty = p.ty ∧ q.dflt = p.dflt := by
+  unfold typeDefaultDiffers
+  cases hb : binder P c n with
+  | none => simp
+  | some q =>
+    simp only [Option.some.injEq]
+    constructor
+    · intro h p hp hn q' hq'
+      subst hq'
+      have hf : ¬ ((p.name == n && !(decide (q.ty = p.ty) && decide (q.dflt = p.dflt))) = true) :=
+        fun ht => by
+          have : (resolve P c).any (fun p => p.name == n && !(decide (q.ty = p.ty) && decide (q.dflt = p.dflt))) = true :=
+            List.any_eq_true.2 ⟨p, hp, ht⟩
+          rw [h] at this; cases this
+      by_cases h1 : q.ty = p.ty
+      · by_cases h2 : q.dflt = p.dflt
+        · exact ⟨h1, h2⟩
+        · exact absurd (by simp [hn, h1, h2]) hf
+      · exact absurd (by simp [hn, h1]) hf
+    · intro h
+      apply Bool.eq_false_iff.2
+      intro ht
+      obtain ⟨p, hp, hpt⟩ := List.any_eq_true.1 ht
+      simp only [Bool.and_eq_true, beq_iff_eq, Bool.not_eq_true', Bool.and_eq_false_iff, decide_eq_false_iff_not] at hpt
+      have := h p hp hpt.1 q rfl
+      rcases hpt.2 with hd | hd
+      · exact hd this.1
+      · exact hd this.2
+
 theorem find_nodup : ∀ {ps : List Param} {p : Param}, (names ps).Nodup → p ∈ ps →
     ps.find? (fun q => q.name = p.name) = some p
   | [], _, _, h => by cases h
